@@ -2,10 +2,20 @@
 use crate::engine::Run;
 
 pub mod c03;
+pub mod c04;
+pub mod c05;
+pub mod c06;
+pub mod c07;
+pub mod c08;
 
 pub fn lookup(id: &str) -> Option<fn(&mut Run)> {
     Some(match id {
         "C03" => c03::run,
+        "C04" => c04::run,
+        "C05" => c05::run,
+        "C06" => c06::run,
+        "C07" => c07::run,
+        "C08" => c08::run,
         _ => return None,
     })
 }
